@@ -282,8 +282,12 @@ M('C09', 'c09-fd-as-int', [(EXT, "args.append(wl.Arg.Fd(int(value)))", "args.app
 M('C09', 'c09-new-id-not-new', [(EXT, "args.append(wl.Arg.Object(wl.UnresolvedObject(arg_id, arg_type_name), True))", "args.append(wl.Arg.Object(wl.UnresolvedObject(arg_id, arg_type_name), False))")], 'C09.3')
 M('C09', 'c09-sent-received-swapped', [(EXT, "message = extract_message(closure, object, True, False)", "message = extract_message(closure, object, False, False)")], 'C09.4')
 M('C09', 'c09-fixed-formula-const', [(EXT, "((1023LL + 44LL) << 52)", "((1023LL + 43LL) << 52)")], 'C09.3')
-M('C09', 'c09-types-wrong-index', [(EXT, "            elif c == 'o':\n                arg_type = message_types[i]", "            elif c == 'o':\n                arg_type = message_types[len(args)]")], 'C09.1')
-M('C09', 'c09-union-member-fixed', [(EXT, "            value = closure_args[i][c]", "            value = closure_args[i]['i'] if c == 'u' else closure_args[i][c]")], 'C09.2')
+V('C09', 'c09v-types-index-by-count', [(EXT, "            elif c == 'o':\n                arg_type = message_types[i]", "            elif c == 'o':\n                arg_type = message_types[len(args)]")])
+M('C09', 'c09-types-wrong-index', [(EXT, "            elif c == 'o':\n                arg_type = message_types[i]", "            elif c == 'o':\n                arg_type = message_types[i + 1]")], 'C09.1')
+M('C09', 'c09-increment-in-else-only', [(EXT, "                raise RuntimeError('Invalid type code ' + c)\n            i += 1", "                raise RuntimeError('Invalid type code ' + c)\n        i += 1")], 'C09.1')
+V('C09', 'c09v-increment-spelled-out', [(EXT, "                raise RuntimeError('Invalid type code ' + c)\n            i += 1", "                raise RuntimeError('Invalid type code ' + c)\n            i = i + 1")])
+M('C09', 'c09-increment-before-type-read', [(EXT, "            value = closure_args[i][c]\n", "            value = closure_args[i][c]\n            i += 1\n"), (EXT, "                raise RuntimeError('Invalid type code ' + c)\n            i += 1", "                raise RuntimeError('Invalid type code ' + c)")], 'C09.1')
+M('C09', 'c09-union-member-fixed', [(EXT, "            value = closure_args[i][c]", "            value = closure_args[i]['i'] if c == 'u' else closure_args[i][c]")], 'C09')
 M('C09', 'c09-bp-registry-swapped', [(PLG, "WlClosureCallBreakpoint(self, 'serialize_closure', extract.sent_message)", "WlClosureCallBreakpoint(self, 'serialize_closure', extract.received_message)")], 'C09.4')
 M('C09', 'c09-string-unguarded', [(EXT, "                if _is_null(value):\n                    str_val = '[null string]'\n                else:\n                    str_val = value.string()", "                str_val = value.string()")], 'C09.3')
 M('C09', 'c09-name-from-signature', [(EXT, "    message_name = _fast_access(closure_message, 'wl_message.name').string()", "    message_name = _fast_access(closure_message, 'wl_message.signature').string()")], 'C09.4')
@@ -423,3 +427,12 @@ M('C14', 'c14-new-needs-name', [(MAT, "                if isinstance(arg, wl.Arg
 M('C06', 'c06-selection-cleared-on-typo', [(CTL, "            connection = self._get_connection(arg)\n            if connection is not None:\n                self.current_connection = connection\n", "            connection = self._get_connection(arg)\n            self.current_connection = connection\n            if connection is not None:\n")], 'C06.4')
 M('C13', 'c13-run-mode-utf8', [(RUN, "os.fdopen(readable, 'r', errors='backslashreplace')", "os.fdopen(readable, 'r', encoding='utf-8', errors='backslashreplace')")], 'C13.1')
 V('C14', 'c14v-pattern-single-return', [(MAT, "        if not self.obj_matcher.matches(message.obj):\n            return False\n        if not self.name_matcher.matches(message.name):\n            return False\n        if not self.args_matcher.matches(message.args):\n            return False\n        return True", "        return (self.obj_matcher.matches(message.obj) and\n            self.name_matcher.matches(message.name) and\n            self.args_matcher.matches(message.args))")])
+
+# ---- round-d inspired variants --------------------------------------------------------------------
+PARSE = 'backends/libwayland_debug_output/parse.py'
+V('C04', 'c04v-known-connections-dict', [(PARSE, "        self.known_connections: Set[str] = set()", "        self.known_connections: dict = {}"),
+                                          (PARSE, "            self.known_connections.add(conn_id)\n", "            self.known_connections[conn_id] = True\n")])
+V('C18', 'c18v-known-connections-dict', [(PARSE, "        self.known_connections: Set[str] = set()", "        self.known_connections: dict = {}"),
+                                          (PARSE, "            self.known_connections.add(conn_id)\n", "            self.known_connections[conn_id] = True\n")])
+V('C04', 'c04v-known-connections-list', [(PARSE, "        self.known_connections: Set[str] = set()", "        self.known_connections: list = []"),
+                                          (PARSE, "            self.known_connections.add(conn_id)\n", "            self.known_connections.append(conn_id)\n")])
